@@ -24,7 +24,8 @@ func init() {
 			"R4b the merged listing is sorted by the unifier itself. " +
 			"R0 the unifier holds its two members in two different fields. " +
 			"R4c a member's listing error is cleared only when that very error is name-unknown. " +
-			"R7 ID, Size and ChunkSize of the unified writer assign no field of the writer (no memoised answers).",
+			"R7 ID, Size and ChunkSize of the unified writer assign no field of the writer (no memoised answers). " +
+			"R8 the unifier's PushBlobChunkedResume compares the two members' upload sizes; R9 mergeIter returns a plain sequence only where both members' errors are known nil.",
 		NotDecided: "observable equality of the two members after arbitrary write histories, and equality of results of the two read policies on values, are not decided.",
 		Technique:  "static analysis: delegation/fan-out shape on SSA, dominance of both-succeeded conditions, phi-edge pairing in mergeIter",
 	})
@@ -197,6 +198,8 @@ func runC15(c *core.Ctx) {
 	cancelBeforeReturnNotForReaders(c, "C15.R6")
 	c15MergeIter(c)
 	unifiedWriterGettersArePure(c, "C15.R7")
+	unifierResumeComparesMemberSizes(c, "C15.R8")
+	mergedListingPlainOnlyWithoutError(c, "C15.R9")
 }
 
 func c15VerifyBoth(c *core.Ctx, both *ssa.Function) {
